@@ -99,6 +99,39 @@ def run(chk):
         okx, _ = close(D @ x, y, 1e-7, rel=True)
         if not okx:
             oracle_bad.append(dict(case, what="solve L then L^T", expected=y.tolist(), observed=(D @ x).tolist()))
+    # ---- the factor actually used by the solver, on every construction path (kernel + noise, pre-computed covariance,
+    #      conditioning at the training inputs), in O(1) and in tiny units: L L^T = solver.matrix, log det, L / L^T solves
+    import jax.numpy as jnp
+    from tinygp import GaussianProcess
+    from tinygp.kernels import quasisep as qs
+    from tinygp.noise import Diagonal
+    from tinygp.solvers import QuasisepSolver
+    rng = np.random.default_rng(chk.seed + 7)
+    for amp in (1.0, 1e-5):
+        for kname, kern in (("Matern32", qs.Matern32(jnp.asarray(1.3), jnp.asarray(amp))),
+                            ("SHO+Exp", qs.SHO(jnp.asarray(1.1), jnp.asarray(2.0), jnp.asarray(amp)) + qs.Exp(jnp.asarray(0.7), jnp.asarray(amp)))):
+            n = 9
+            X = jnp.asarray(np.sort(rng.uniform(0, 5, size=n)))
+            dg = jnp.asarray(amp ** 2 * rng.uniform(0.2, 0.5, size=n))
+            yv = jnp.asarray(amp * rng.normal(size=n))
+            gp = GaussianProcess(kern, X, diag=dg, solver=QuasisepSolver)
+            cond_gp = gp.condition(yv, diag=dg).gp           # pre-computed covariance path of the solver
+            direct = QuasisepSolver(kern, X, Diagonal(diag=dg), covariance=gp.solver.matrix)
+            for pname, sol in (("kernel+noise", gp.solver), ("condition at training inputs", cond_gp.solver), ("covariance=", direct)):
+                M = np.asarray(sol.matrix.to_dense())
+                Lf = np.asarray(sol.factor.to_dense())
+                case = dict(op=f"solver factor [{pname}]", kernel=kname, amplitude=amp, n=n, X=np.asarray(X).tolist())
+                hist["solver:" + pname] = hist.get("solver:" + pname, 0) + 1
+                scale = float(np.max(np.abs(M)))
+                if not np.all(np.isfinite(Lf)) or float(np.max(np.abs(Lf @ Lf.T - M))) > 1e-10 * scale:
+                    oracle_bad.append(dict(case, what="L L^T != solver.matrix (relative 1e-10)", expected=M.tolist(), observed=(Lf @ Lf.T).tolist()))
+                want_norm = 0.5 * np.linalg.slogdet(M)[1] + 0.5 * n * np.log(2 * np.pi)
+                if abs(float(sol.normalization()) - want_norm) > 1e-9 * max(1.0, abs(want_norm)):
+                    oracle_bad.append(dict(case, what="normalization != 0.5 log det(2 pi A)", expected=float(want_norm), observed=float(sol.normalization())))
+                rhs = rng.normal(size=n)
+                xs = np.asarray(sol.solve_triangular(sol.solve_triangular(jnp.asarray(rhs)), transpose=True))
+                if float(np.max(np.abs(M @ xs - rhs))) > 1e-8 * float(np.max(np.abs(rhs))) * max(1.0, np.linalg.cond(M) * 1e-6):
+                    oracle_bad.append(dict(case, what="solve with L then L^T does not solve with A", expected=rhs.tolist(), observed=(M @ xs).tolist()))
     model = coq_eval("c07", IMPORTS, exprs, shard=10)
     for (case, meta, dense), mv in zip(expect, model):
         mmeta, mdense = mv[:5], mv[5:]
@@ -109,7 +142,7 @@ def run(chk):
     chk.cov["evaluations"] = len(exprs)
     chk.cov["distinct_nontrivial"] = len(distinct)
     chk.cov["rule"] = ("SPD SymmQSMs produced by kernel+diagonal noise (with coincident points), kernel+banded noise, "
-                       "diagonally dominant random generators, sums, Hadamard products, inverses and Gram products; "
+                       "diagonally dominant random generators, sums, Hadamard products, inverses and Gram products; the solver's own factor on the kernel+noise, covariance= and conditioning paths at amplitudes 1 and 1e-5; "
                        "distinct = different (construction, n, dense bytes)")
     chk.cov["input_histogram"] = hist
     chk.cov["condition_numbers"] = {"max": max(conds), "median": float(np.median(conds))}
